@@ -66,3 +66,75 @@ func TestVerifC18_StopWaitsForWorker(t *testing.T) {
 		}
 	}
 }
+
+// TestVerifC18_ConcurrentStopsAllWait: every one of several overlapping stop requests, at the moment it
+// returns, finds the background goroutine finished ("a stop that returns" means stopped, whichever caller
+// asked first).  The worker is kept inside a session (queued underflow nodes + slow progress callback) while
+// the requests arrive.  Added after seeded change C18-b (a second concurrent StopIncrementalRebalancing
+// returned at once because the first had already detached the rebalancer).
+func TestVerifC18_ConcurrentStopsAllWait(t *testing.T) {
+	rounds := 2 * verifC18Iters()
+	for round := 0; round < rounds; round++ {
+		bt := NewWritableBTreeV2(4096)
+		for i := 0; i < 8; i++ {
+			if err := bt.InsertRecord(fmt.Sprintf("n%d", i), uint64(i+1)); err != nil {
+				t.Fatalf("[result-diff] TestVerifC18_ConcurrentStopsAllWait: insert failed: %v", err)
+			}
+		}
+		bt.EnableLazyRebalancing(DefaultLazyConfig())
+		slow := make(chan struct{}, 1)
+		cfg := IncrementalRebalancingConfig{Enabled: true, Budget: 50 * time.Microsecond, Interval: time.Duration(1+round%50) * time.Microsecond,
+			ProgressCallback: func(RebalancingProgress) {
+				select {
+				case slow <- struct{}{}:
+				default:
+				}
+				time.Sleep(time.Duration(200+100*(round%4)) * time.Microsecond)
+			}}
+		if err := bt.EnableIncrementalRebalancing(cfg); err != nil {
+			t.Fatalf("[result-diff] TestVerifC18_ConcurrentStopsAllWait: enable failed: %v", err)
+		}
+		ir := bt.incrementalRebalancer
+		if ir == nil {
+			t.Fatalf("[result-diff] TestVerifC18_ConcurrentStopsAllWait: no rebalancer after enable")
+		}
+		stopped := ir.stoppedChan
+		verifC18SeedUnderflow(bt, 200, uint64(round)*1000)
+		select {
+		case <-slow:
+		case <-time.After(200 * time.Millisecond):
+		}
+		nStoppers := 2 + round%3
+		early := make(chan int, nStoppers)
+		done := make(chan struct{}, nStoppers)
+		start := make(chan struct{})
+		for s := 0; s < nStoppers; s++ {
+			go func(s int) {
+				defer func() { done <- struct{}{} }()
+				<-start
+				if s > 0 {
+					time.Sleep(time.Duration(s*(10+round%40)) * time.Microsecond) // arrive while an earlier request is waiting
+				}
+				_ = bt.StopIncrementalRebalancing()
+				select {
+				case <-stopped:
+				default:
+					early <- s
+				}
+			}(s)
+		}
+		close(start)
+		for s := 0; s < nStoppers; s++ {
+			select {
+			case <-done:
+			case <-time.After(5 * time.Second):
+				t.Fatalf("[stop-timeout] TestVerifC18_ConcurrentStopsAllWait round=%d: %d overlapping stop requests did not all return within 5s", round, nStoppers)
+			}
+		}
+		select {
+		case s := <-early:
+			t.Fatalf("[goroutine-leak] TestVerifC18_ConcurrentStopsAllWait round=%d: stop request #%d of %d overlapping ones returned while the background goroutine was still running (stoppedChan not closed)", round, s, nStoppers)
+		default:
+		}
+	}
+}
